@@ -483,6 +483,115 @@ Definition parse_imax_gen (empty : bool) (iv : option Z) : option bool := if emp
 Definition istop_values_gen : list string := [{"; ".join('"%s"' % x for x in stops)}].''')
 
 
+# ------------------------------------------------------------------------------------------------ str_location
+def gen_loc(out):
+    """transformers/transformer.py: str_location - straight-line code over the flags ret / dash / eq with one-armed ifs, translated statement by
+    statement into a chain of lets (every assigned variable gets a new version; an `if` without else selects between the new and the old version)"""
+    fn = find_fun(parse('telingo/transformers/transformer.py'), 'str_location')
+    body = [x for x in fn.body if not (isinstance(x, ast.Expr) and isinstance(x.value, ast.Constant))]
+    pos = {'begin.filename': ('bf', 'file'), 'begin.line': ('bl', 'num'), 'begin.column': ('bc', 'num'), 'end.filename': ('ef', 'file'), 'end.line': ('el', 'num'), 'end.column': ('ec', 'num')}
+    ver, typ, lets = {}, {}, []
+
+    def cur(v):
+        if v not in ver:
+            raise Unsupported('str_location: %s used before assignment' % v)
+        return v if ver[v] == 0 else '%s%d' % (v, ver[v])
+
+    def fresh(v, t):
+        ver[v] = ver.get(v, -1) + 1
+        typ[v] = t
+        return cur(v)
+
+    def lit(txt):
+        toks = []
+        for ch in txt:
+            if ch == ':':
+                toks.append('LColon')
+            elif ch == '-':
+                toks.append('LDash')
+            else:
+                raise Unsupported('str_location: literal text %r' % txt)
+        return toks
+
+    def bexp(e):
+        if isinstance(e, ast.Constant) and isinstance(e.value, bool):
+            return 'true' if e.value else 'false'
+        if isinstance(e, ast.Name) and typ.get(e.id) == 'bool':
+            return cur(e.id)
+        if isinstance(e, ast.UnaryOp) and isinstance(e.op, ast.Not):
+            return '(negb %s)' % bexp(e.operand)
+        if isinstance(e, ast.BoolOp):
+            return '(' + (' && ' if isinstance(e.op, ast.And) else ' || ').join(bexp(x) for x in e.values) + ')'
+        if isinstance(e, ast.Compare) and len(e.ops) == 1:
+            a, b = ast.unparse(e.left), ast.unparse(e.comparators[0])
+            if a in pos and b in pos and pos[a][1] == pos[b][1]:
+                op = {ast.Eq: 'Nat.eqb %s %s', ast.NotEq: 'negb (Nat.eqb %s %s)', ast.LtE: 'Nat.leb %s %s', ast.Lt: 'Nat.ltb %s %s', ast.GtE: 'Nat.leb %s %s', ast.Gt: 'Nat.ltb %s %s'}.get(type(e.ops[0]))
+                if op is None:
+                    raise Unsupported('str_location: comparison ' + ast.unparse(e))
+                x, y = pos[a][0], pos[b][0]
+                if isinstance(e.ops[0], (ast.GtE, ast.Gt)):
+                    x, y = y, x
+                return '(' + op % (x, y) + ')'
+        raise Unsupported('str_location: condition ' + ast.unparse(e))
+
+    def arg(e):
+        u = ast.unparse(e)
+        if u in pos:
+            return ['(%s %s)' % ('LFile' if pos[u][1] == 'file' else 'LNum', pos[u][0])]
+        if isinstance(e, ast.IfExp) and all(isinstance(x, ast.Constant) and isinstance(x.value, str) and len(x.value) == 1 for x in (e.body, e.orelse)):
+            return ['(if %s then %s else %s)' % (bexp(e.test), lit(e.body.value)[0], lit(e.orelse.value)[0])]
+        raise Unsupported('str_location: format argument ' + u)
+
+    def sexp(e):
+        """string expression -> list of tokens (Coq list text)"""
+        if isinstance(e, ast.Call) and isinstance(e.func, ast.Attribute) and e.func.attr == 'format' and isinstance(e.func.value, ast.Constant) and isinstance(e.func.value.value, str) and not e.keywords:
+            pieces = e.func.value.value.split('{}')
+            if len(pieces) != len(e.args) + 1:
+                raise Unsupported('str_location: format string ' + ast.unparse(e))
+            toks = lit(pieces[0])
+            for a, p_ in zip(e.args, pieces[1:]):
+                toks += arg(a) + lit(p_)
+            return '[' + '; '.join(toks) + ']'
+        if isinstance(e, ast.Name) and typ.get(e.id) == 'str':
+            return cur(e.id)
+        raise Unsupported('str_location: string expression ' + ast.unparse(e))
+
+    def assign(st, guard=None):
+        if isinstance(st, ast.Assign) and len(st.targets) == 1 and isinstance(st.targets[0], ast.Name):
+            v = st.targets[0].id
+            if ast.unparse(st.value) in ('loc.begin', 'loc.end') and v in ('begin', 'end') and guard is None:
+                if ast.unparse(st.value) != 'loc.' + v:
+                    raise Unsupported('str_location: ' + ast.unparse(st))
+                return
+            try:
+                val, t = bexp(st.value), 'bool'
+            except Unsupported:
+                val, t = sexp(st.value), 'str'
+        elif isinstance(st, ast.AugAssign) and isinstance(st.op, ast.Add) and isinstance(st.target, ast.Name) and typ.get(st.target.id) == 'str':
+            v, t = st.target.id, 'str'
+            val = '(%s ++ %s)%%list' % (cur(v), sexp(st.value))
+        else:
+            raise Unsupported('str_location: statement ' + ast.unparse(st))
+        if guard is not None:
+            if v not in ver or typ[v] != t:
+                raise Unsupported('str_location: %s first assigned under a condition' % v)
+            val = '(if %s then %s else %s)' % (guard, val, cur(v))
+        lets.append('let %s := %s in' % (fresh(v, t), val))
+
+    if not isinstance(body[-1], ast.Return):
+        raise Unsupported('str_location: no final return')
+    for st in body[:-1]:
+        if isinstance(st, ast.If):
+            if st.orelse:
+                raise Unsupported('str_location: if with else')
+            g = bexp(st.test)
+            for x in st.body:
+                assign(x, g)
+        else:
+            assign(st)
+    out.append('(* ---- transformers/transformer.py: str_location ---- *)\nDefinition str_location_gen (bf bl bc ef el ec : nat) : list ltok :=\n  ' + '\n  '.join(lets) + '\n  ' + sexp(body[-1].value) + '.')
+
+
 # ------------------------------------------------------------------------------------------------ operator tables
 def coq_str(x):
     return '"' + x.replace('"', '""') + '"'
@@ -1461,6 +1570,7 @@ GROUPS = {
     'imain': ('FromSource.v', [gen_imain], ['GenPrelude']),
     'transformers': ('FromTransformers.v', [gen_transformers], ['GenPrelude']),
     'app': ('FromApp.v', [gen_app], ['GenPrelude']),
+    'loc': ('FromLoc.v', [gen_loc], ['GenPrelude']),
     'tables': ('FromTables.v', [gen_tables], ['GenPrelude']),
     'theory': ('FromTheory.v', [gen_theory], ['GenPrelude', 'TheoryPrelude']),
     'dynamic': ('FromDynamic.v', [gen_dynamic], ['GenPrelude', 'TheoryPrelude', 'DynPrelude']),
